@@ -131,9 +131,9 @@ func runC05(e *Env, c *LibCase) {
 			dirtyPages[int64(i)] = true
 		case "sync", "reopen":
 			if op.FailAt > 0 && op.Op == "sync" {
-				// F7: writes beyond a seeded offset fail while this Sync runs
+				// F10: writes beyond a seeded offset fail while this Sync runs
 				serr := withWriteLimit(op.FailAt-1, func() error { return db.Sync() })
-				e.Fault("F7.write-failure-during-sync")
+				e.Fault("F10.write-failure-during-sync")
 				if serr != nil {
 					// a loud failure claims nothing; whatever reached the disk is the
 					// new baseline, the recorded view is void
